@@ -19,7 +19,8 @@ def scrub_environ() -> None:
     for k in list(os.environ):
         if k.startswith(_SCRUB_PREFIXES) or k in _SCRUB_NAMES:
             del os.environ[k]
-    os.environ["KCONFIG_REPORT_VERBOSITY"] = "quiet"
+    # C15 (VK_KEEP_LOG=1) must see what a default installation would print, so it keeps the default verbosity
+    os.environ["KCONFIG_REPORT_VERBOSITY"] = "default" if os.environ.get("VK_KEEP_LOG") == "1" else "quiet"
     os.environ["NO_COLOR"] = "1"
     os.environ["TERM"] = "dumb"
     # the hook guard of MANIFEST.hooks: no source hook exists (see DESIGN 1.7); the variable is still set so that
